@@ -206,27 +206,84 @@ TRANSPARENT = ("unwrap", "expect", "clone", "borrow", "borrow_mut", "as_ref", "a
 SLICE_ROOT_METHODS = ("as_slice_mut", "as_slice", "as_slice_memory_order", "as_slice_memory_order_mut")
 
 
+class Inliner:
+    """Which workspace callees a Tracer expands in place (wrapper inlining with a stated bound: depth 2, no recursion).
+    `pred(caller_fn, callee_fn)` decides; the default takes private helpers of the same crate that are not listed in
+    `keep` (the functions a rule wants to see as calls). Extracting a block into a helper, or inlining one, then leaves the
+    event stream a rule looks at essentially unchanged."""
+
+    def __init__(self, facts, keep=(), pred=None, max_depth=2):
+        self.keep = set(keep)
+        self.pred = pred
+        self.max_depth = max_depth
+        self.index = {}
+        for f in facts.all_fns():
+            self.index[(f["d"]["krate"], f["d"].get("raw"))] = f
+
+    def lookup(self, caller, d, depth, stack):
+        if d is None or depth >= self.max_depth:
+            return None
+        g = self.index.get((d.get("krate"), d.get("raw")))
+        if g is None or g is caller or id(g) in stack or g["d"]["krate"] != caller["d"]["krate"]:
+            return None
+        if g["d"]["name"] in self.keep:
+            return None
+        if self.pred is not None:
+            return g if self.pred(caller, g) else None
+        return g if g.get("vis") != "pub" else None
+
+
 class Tracer:
     """Walks one fn body. `self.events` is the ordered list of calls/assignments/returns."""
 
-    def __init__(self, fn, transparent=TRANSPARENT):
+    def __init__(self, fn, transparent=TRANSPARENT, inline=None, _parent=None, _args=None):
         self.fn = fn
         self.c = fn["crate"]
         self.env = {}
         self.fenv = {}
-        self.events = []
-        self.guards = []
-        self.loops = []
-        self.order = 0
-        self.closure_depth = 0
-        self.n_closures = 0
+        self.inline = inline
+        self.parent = _parent
+        if _parent is None:
+            self.events = []
+            self.guards = []
+            self.loops = []
+            self.depth = 0
+            self.stack = set([id(fn)])
+        else:
+            # an inlined callee shares the event stream, the guard stack and the loop stack of its caller
+            self.events = _parent.events
+            self.guards = _parent.guards
+            self.loops = _parent.loops
+            self.depth = _parent.depth + 1
+            self.stack = _parent.stack | set([id(fn)])
+        self.order = 0 if _parent is None else _parent.order
+        self.closure_depth = 0 if _parent is None else _parent.closure_depth
+        self.n_closures = 0 if _parent is None else _parent.n_closures
         self.transparent = set(transparent)
         self.param_locals = {}
         for i, p in enumerate(fn["params"]):
             nm = p["name"] if p.get("k") == "Bind" else "param%d" % i
-            self.bind(p, Term("param:" + nm))
-            if p.get("k") == "Bind":
+            if _args is not None and i < len(_args) and _args[i] is not None:
+                self.bind(p, _args[i])
+            else:
+                self.bind(p, Term("param:" + nm))
+            if p.get("k") == "Bind" and _parent is None:
                 self.param_locals[p["local"]] = nm
+
+    def try_inline(self, d, argvals, n):
+        """expand a workspace helper in place; returns (True, value) or (False, None)"""
+        if self.inline is None:
+            return False, None
+        g = self.inline.lookup(self.fn, d, self.depth, self.stack)
+        if g is None or len(g["params"]) != len(argvals):
+            return False, None
+        self.emit("inline", name=g["d"]["name"], callee=g, node=n)
+        sub = type(self)(g, transparent=self.transparent, inline=self.inline, _parent=self, _args=argvals)
+        v = sub.ev(g["body"])
+        self.order = sub.order
+        self.n_closures = sub.n_closures
+        self.emit("inline_end", name=g["d"]["name"], callee=g, node=n)
+        return True, v
 
     def run(self):
         self.result = self.ev(self.fn["body"])
@@ -486,6 +543,10 @@ class Tracer:
             d = self.c.dfn(f["def"])
             name = d["name"] or d["path"].split("::")[-1]
             inst = self.c.dfn(f.get("inst"))
+            done, iv = self.try_inline(inst or d, args, n)
+            if done:
+                self.version_mut_args(n["args"], name, args)
+                return iv if iv is not None else self.call_value(name, d, None, args, n)
             e = self.emit("call", name=name, d=d, inst=inst, recv=None, args=args, node=n, callee_local=None, method=False)
             v = self.call_value(name, d, None, args, n)
             e.val = v
@@ -502,6 +563,10 @@ class Tracer:
         args = [self.ev(a) for a in n["args"]]
         d = self.c.dfn(n.get("def"))
         inst = self.c.dfn(n.get("inst"))
+        done, iv = self.try_inline(inst or d, [recv] + args, n)
+        if done:
+            self.version_mut_args([n["recv"]] + list(n["args"]), n["name"], [recv] + args)
+            return iv if iv is not None else self.call_value(n["name"], d, recv, args, n)
         e = self.emit("call", name=n["name"], d=d, inst=inst, recv=recv, args=args, node=n, callee_local=None, method=True)
         v = self.call_value(n["name"], d, recv, args, n)
         e.val = v
@@ -518,6 +583,19 @@ class Tracer:
                 elif not isinstance(old, Slice):
                     self.env[root["local"]] = Term("mut:%s" % n["name"], ((old,) if old is not None else ()) + tuple(args))
         return v
+
+    def version_mut_args(self, arg_nodes, name, argvals):
+        """after an inlined call: locals handed over by `&mut` have been written by the callee"""
+        for a in arg_nodes:
+            a0 = strip(a)
+            is_mut = (a0.get("k") == "Ref" and a0.get("mut")) or self.ty(a0, adjusted=True).startswith("&mut ")
+            if not is_mut:
+                continue
+            root = self.lhs_root(a0["e"] if a0.get("k") == "Ref" else a0)
+            if root is not None:
+                old = self.env.get(root["local"])
+                if not isinstance(old, Slice):
+                    self.env[root["local"]] = Term("mut:%s" % name, ((old,) if old is not None else ()))
 
     def call_value(self, name, d, recv, args, n):
         if recv is not None:
@@ -658,7 +736,7 @@ class Tracer:
 
     def ev_Ret(self, n):
         v = self.ev(n["e"]) if n.get("e") else None
-        self.emit("ret", val=v, node=n)
+        self.emit("ret" if self.parent is None else "iret", val=v, node=n)
         return None
 
     def ev_Break(self, n):
@@ -779,6 +857,66 @@ def implied_cmps(v, positive=True):
             for a in v.args:
                 out += implied_cmps(a, positive)
     return out
+
+
+def sufficient_cmps(v, positive=True):
+    """Comparisons each of which ALONE makes the guard value come out `positive` (dual of implied_cmps): the disjuncts
+    of a true disjunction, the negated conjuncts of a false conjunction. `if a == 0 || b > c { return Err }` rejects
+    whenever a == 0; `if a > 0 && b <= c { work } else { Err }` rejects whenever !(a > 0)."""
+    out = []
+    if isinstance(v, Cmp):
+        out.append((v, positive))
+    elif isinstance(v, Term):
+        if v.op == "not" and v.args:
+            out += sufficient_cmps(v.args[0], not positive)
+        elif (v.op == "bin:||" and positive) or (v.op == "bin:&&" and not positive):
+            for a in v.args:
+                out += sufficient_cmps(a, positive)
+        elif v.op.startswith("call:") and v.name in ("unwrap_or", "map") or v.op.startswith("closure#"):
+            for a in v.args:
+                out += sufficient_cmps(a, positive)
+    return out
+
+
+def int_test(c, holds, atom_pred):
+    """For a comparison over ONE atom x (a non-negative integer) and constants: the set of x in {0, 1, 2, 3} for which
+    it holds (with polarity `holds`), or None when the comparison has another shape. `x == 0`, `x < 1`, `!(x >= 1)`
+    all give {0}."""
+    atoms = [(kk[0], cf) for kk, cf in c.poly.t.items() if len(kk) == 1]
+    if len(atoms) != 1 or len(c.poly.t) - (1 if () in c.poly.t else 0) != 1 or not atom_pred(atoms[0][0]):
+        return None
+    a, const = atoms[0][1], c.poly.t.get((), 0)
+    import operator
+    ops = {"<": operator.lt, "<=": operator.le, ">": operator.gt, ">=": operator.ge, "==": operator.eq, "!=": operator.ne}
+    if c.cop not in ops:
+        return None
+    out = set()
+    for x in range(4):
+        v = ops[c.cop](a * x + const, 0)
+        if v == holds:
+            out.add(x)
+    return out
+
+
+def rejecting_exits(tr, before_order):
+    """Exits that hand an error to the caller before `before_order`: `return Err(..)` (also from an inlined helper) and
+    `Err(..)` values of if/else chains. Each comes with its guard stack."""
+    out = []
+    for e in tr.events:
+        if e.order >= before_order or not e.guards:
+            continue
+        if e.kind in ("ret", "iret") and as_term(e.val) is not None and as_term(e.val).is_call("Err"):
+            out.append(e)
+        elif e.kind == "call" and e.name == "Err":
+            out.append(e)
+    # a `return Err(x)` shows up as the call and as the ret: keep one per guard stack
+    seen, uniq = set(), []
+    for e in out:
+        sig = tuple((g[0], g[1]) for g in e.guards)
+        if sig not in seen:
+            seen.add(sig)
+            uniq.append(e)
+    return uniq
 
 
 def guard_relations(e, a_pred, b_pred):
